@@ -428,7 +428,7 @@ def install(E):
     def _ziserr(E, st, fr, a, d):
         v = a[0]
         if type(v) is int: return int(v > 0xffffffffffffff00)
-        return z3.UGT(v, BVV(0xffffffffffffff00, 64))
+        return z3.If(z3.UGT(v, BVV(0xffffffffffffff00, 64)), BVV(1, 32), BVV(0, 32))
     @reg('ZSTD_maxCLevel')
     def _zmax(E, st, fr, a, d): return 22
     @reg('ZSTD_createDCtx', 'ZSTD_createCCtx')
